@@ -100,68 +100,53 @@ func cobsDecodeInplace(b []byte) (int, error) {
 // bytes and must end with a NULL byte. This Read blocks until we
 // get an entire packet or an error. b must be large enough to hold the entire packet.
 func (cw *CobsWrapper) Read(b []byte) (int, error) {
-	// we read data until we see a zero or hit the size of the b buffer
-	// current location in read buffer
-	var cur int
-
-	// first, process any leftover bytes looking for packets
-	if cw.readLeftover.Len() > 0 {
-		foundStart := false
-
+	for {
+		// look for a complete packet in the bytes we have already received
 		lb := cw.readLeftover.Bytes()
+		start := -1
 		for i := 0; i < len(lb); i++ {
-			if !foundStart {
-				if lb[i] == 0 {
-					continue
+			if lb[i] != 0 {
+				if start < 0 {
+					start = i
 				}
-				foundStart = true
+				continue
 			}
-			if lb[i] == 0 {
-				// found end of packet, copy to read buffer and process
-				_, _ = cw.readLeftover.Read(b[0:i])
-				return cobsDecodeInplace(b[0:i])
+			if start < 0 {
+				// leading null
+				continue
 			}
+			// found end of packet, copy to read buffer (including the
+			// trailing null), keep the rest for the next Read
+			n := copy(b, lb[start:i+1])
+			fits := n == i+1-start
+			cw.readLeftover.Next(i + 1)
+			if !fits {
+				return 0, ErrCobsTooMuchData
+			}
+			return cobsDecodeInplace(b[0:n])
 		}
 
-		// write leftover bytes to beginning of buffer
-		bBuf := bytes.NewBuffer(b)
-		c, _ := bBuf.Write(cw.readLeftover.Bytes())
+		// no complete packet yet, drop leading nulls and make sure
+		// we are not collecting data without end
+		if start < 0 {
+			cw.readLeftover.Reset()
+		} else {
+			cw.readLeftover.Next(start)
+		}
 
-		cur += c
-	}
+		if cw.readLeftover.Len() >= len(b) ||
+			cw.readLeftover.Len() > cw.maxMessageLength {
+			cw.readLeftover.Reset()
+			return 0, ErrCobsTooMuchData
+		}
 
-	foundStart := false
-
-	for {
-		c, err := cw.dev.Read(b[cur:])
+		// b is only used as scratch space here
+		c, err := cw.dev.Read(b)
 		if err != nil {
 			return 0, err
 		}
 
-		if c > 0 {
-			// look for zero in buffer
-			for i := 0; i < c; i++ {
-				if !foundStart {
-					if b[cur+i] == 0 {
-						continue
-					}
-					foundStart = true
-				}
-				if b[cur+i] == 0 {
-					// found end of packet, decode in place
-					// first save off extra bytes
-					cw.readLeftover.Write(b[cur+i+1 : cur+c])
-
-					return cobsDecodeInplace(b[0 : cur+i+1])
-				}
-			}
-		}
-
-		cur += c
-
-		if cur >= len(b) || cur > cw.maxMessageLength {
-			return 0, ErrCobsTooMuchData
-		}
+		cw.readLeftover.Write(b[0:c])
 	}
 }
 
